@@ -3,6 +3,8 @@ package mhprimary
 import (
 	"encoding/json"
 	"os"
+
+	"github.com/ipld/go-storethehash/store/vhook"
 )
 
 // Header contains information about the primary. This is actually stored in a
@@ -44,5 +46,6 @@ func writeHeader(headerPath string, header Header) error {
 	if err != nil {
 		return err
 	}
+	vhook.At("mh.writeheader.before")
 	return os.WriteFile(headerPath, data, 0o666)
 }
